@@ -338,3 +338,145 @@ func runSharedSig(sc scenario, res *result) {
 	}
 	res.Events = w.s.Events()
 }
+
+// ------------------------------------------------------------------ the "initfail" step (C07: a panicking step-data initializer)
+// Its step-data initializer panics for the FIRST run that is started with beh = "initpanic" in a session - the
+// initializer has no arguments, so the request is handed over through the world; the handler itself succeeds.
+func (w *world) initfailStep() schema.CallableStep {
+	in := schema.NewScopeSchema(schema.NewStructMappedObjectSchema[stepIn]("InitIn", map[string]*schema.PropertySchema{
+		"name": prop(schema.NewStringSchema(nil, nil, nil)),
+		"beh":  prop(schema.NewStringSchema(nil, nil, nil)),
+	}))
+	out := schema.NewScopeSchema(schema.NewStructMappedObjectSchema[stepOut]("InitOut", map[string]*schema.PropertySchema{
+		"message": prop(schema.NewStringSchema(nil, nil, nil)),
+	}))
+	return schema.NewCallableStepWithSignals[*waitsigData, stepIn](
+		"initfail", in,
+		map[string]*schema.StepOutputSchema{"success": schema.NewStepOutputSchema(out, nil, false)},
+		map[string]schema.CallableSignal{},
+		map[string]*schema.SignalSchema{},
+		nil,
+		func() *waitsigData {
+			w.mu.Lock()
+			n := w.initCalls
+			w.initCalls++
+			w.mu.Unlock()
+			if n == 0 {
+				panic("the step-data initializer panics for the first run")
+			}
+			return &waitsigData{ch: make(chan string, 1)}
+		},
+		func(_ context.Context, _ *waitsigData, in stepIn) (string, any) {
+			if w.stepGate != nil {
+				w.stepGate(in.Name)
+			}
+			return "success", stepOut{Message: "hello " + in.Name}
+		},
+	)
+}
+
+// runReuseSig: a run ID used again right after its first call has returned, while the server goroutine of the FIRST
+// run is still inside the Write call of its work-done (the bytes are with the client, the call has not returned: a
+// write that returns late).  The second run is started and waits for its signal; only then does the first run's
+// goroutine run on; then the signal for the second run is sent.  Whatever the first run's goroutine still does
+// after its work-done must not touch the second run: the second call returns the token of ITS signal.
+func runReuseSig(sc scenario, res *result) {
+	w := &world{sc: sc, res: map[string]*execResult{}, spawned: map[string]bool{}}
+	w.s = sched.New(sched.Free)
+	w.s.Classify = classify
+	atp.VerifHook = w.s.Hook
+	defer func() { atp.VerifHook = nil }()
+	w.c2s = sched.NewPipe("c2s", w.s, sc.Cap)
+	w.s2c = sched.NewPipe("s2c", w.s, sc.Cap)
+	ctx, cancel := context.WithCancel(context.Background())
+	defer cancel()
+	plug := w.plugin()
+	srvC := make(chan int, 1)
+	go func() {
+		errs := atp.RunATPServer(ctx, sched.ReadEnd{P: w.c2s}, sched.WriteEnd{P: w.s2c}, plug)
+		w.s2c.CloseWrite()
+		srvC <- len(errs)
+	}()
+	cli := atp.NewClientWithLogger(sched.Duplex{In: w.s2c, Out: w.c2s}, nil)
+	if _, err := cli.ReadSchema(); err != nil {
+		res.FollowErr = "handshake: " + err.Error()
+		return
+	}
+	w.s.Reset()
+	w.s2c.PostGate = true
+	w.s.SetDelay("t.s2c.write.post", 1) // the first server write of the session: the work-done of the first call
+	w.s.SetMode(sched.Delay)
+	defer w.s.SetMode(sched.Free)
+	type ret struct {
+		id string
+		r  atp.ExecutionResult
+	}
+	call := func(label, token string) *execResult {
+		e := &execResult{St: "none"}
+		w.res[label] = e
+		to := make(chan schema.Input)
+		done := make(chan atp.ExecutionResult, 1)
+		go func() {
+			done <- cli.Execute(schema.Input{RunID: "r1", ID: "waitsig", InputData: map[string]any{"name": "r1", "beh": "ok"}}, to, nil)
+		}()
+		w.s.WaitSettled(stepTimeout) // registered, the step waits for its signal
+		if label == "second" {
+			// the first run's goroutine runs on only now
+			if !w.s.IsParked("t.s2c.write.post") {
+				res.FollowErr = "the first run's writer is not parked behind its work-done"
+			} else if err := w.s.Release("t.s2c.write.post", stepTimeout); err != nil {
+				res.FollowErr = "release: " + err.Error()
+			}
+		}
+		select {
+		case to <- schema.Input{RunID: "r1", ID: "tok", InputData: map[string]any{"token": token}}:
+		case <-time.After(3 * time.Second):
+			res.FollowErr = "nobody takes the signal of the " + label + " call"
+		}
+		close(to)
+		select {
+		case r := <-done:
+			e.Returns++
+			if r.Error != nil {
+				e.St, e.Err = "err", r.Error.Error()
+				return e
+			}
+			e.St, e.Output = "ok", r.OutputID
+			if m, ok := r.OutputData.(map[any]any); ok {
+				e.Got, _ = m["message"].(string)
+			} else if m, ok := r.OutputData.(map[string]any); ok {
+				e.Got, _ = m["message"].(string)
+			}
+			e.TokenOK = e.Got == token
+		case <-time.After(10 * time.Second):
+			res.Stuck = true
+			for _, g := range sched.BlockedSDK() {
+				res.StuckDetail = append(res.StuckDetail, fmt.Sprintf("%s [%s] %s", w.s.Role(g.ID), g.State, strings.TrimSpace(g.Top)))
+			}
+			sort.Strings(res.StuckDetail)
+		}
+		return e
+	}
+	call("first", "token of the first call")
+	if !res.Stuck && res.FollowErr == "" {
+		call("second", "token of the second call")
+	}
+	w.s.SetMode(sched.Free)
+	closed := make(chan error, 1)
+	go func() { closed <- cli.Close() }()
+	select {
+	case <-closed:
+	case <-time.After(8 * time.Second):
+		res.Stuck = true
+		res.StuckDetail = append(res.StuckDetail, "Close does not return")
+	}
+	select {
+	case <-srvC:
+		res.ServerRet = true
+	case <-time.After(3 * time.Second):
+	}
+	for id, e := range w.res {
+		res.Results[id] = *e
+	}
+	res.Events = w.s.Events()
+}
